@@ -204,8 +204,17 @@ def shapeSize : List Nat → Nat
   | [] => 1
   | n :: ns => n * shapeSize ns
 
-/-- well-formed array input: as many elements as the shape says, each fitting the dtype -/
+/-- text inside the model: not ending in NUL characters (numpy's fixed-width unicode conversion
+`np.array(vals, dtype=str)` silently drops trailing NULs — such text is outside the model) -/
+def PyVal.WF : PyVal → Bool
+  | .pyStr s | .npStr s => s.getLast? != some (Char.ofNat 0)
+  | _ => true
+
+/-- well-formed input: text as above; an array has as many elements as the shape says, each
+fitting the dtype -/
 def Input.WF : Input → Bool
+  | .scalar v => v.WF
+  | .list vs => vs.all PyVal.WF
   | .ndarray dt shape data =>
     data.length == shapeSize shape &&
     match dt with
